@@ -71,6 +71,7 @@ class FakePW:
         self.accepted = []              # every input ever accepted by enqueue
         self.answered = []
         self.enqueue_after_death = 0
+        self.lingering = None           # number of is_alive() calls that still answer True although the worker is going down
 
     def __repr__(self):
         return "FakePW(%d)" % self.idx
@@ -78,12 +79,33 @@ class FakePW:
     # -- what the pool calls
     def is_alive(self):
         vos.check_sticky()
+        if self.lingering is not None and self.alive:
+            if self.lingering <= 0:
+                self.lingering = None
+                self._dead(marker=False)
+                return False
+            self.lingering -= 1
+            return True
         return self.alive
 
     def enqueue(self, *inp):
         vos.check_sticky()
         env = self.env
         env.pool_calls += 1
+        if self.alive and self.lingering is not None:
+            raise OSError("handle is closed")          # its input pipe is already closed, the process is not gone yet
+        if self.alive and env.glitches_left > 0:
+            g = env.sched.pick(3)
+            if g == 1:
+                # transient failure of this one enqueue on a healthy worker
+                env.glitches_left -= 1
+                raise OSError("transient enqueue failure")
+            if g == 2 and env.deaths_left > 0:
+                # the worker has begun to die (input pipe closed) but is_alive() still says True for a while
+                env.glitches_left -= 1
+                env.deaths_left -= 1
+                self.lingering = env.sched.pick(3)
+                raise OSError("handle is closed")
         if self.alive and env.deaths_left > 0 and env.allow_death_at_enqueue:
             if env.sched.pick(2) == 1:
                 self.die(marker=False)
@@ -129,7 +151,7 @@ class FakePW:
 
 
 class Env:
-    def __init__(self, sched, W, deaths, poison=None, failing=(), allow_death_at_enqueue=True, double_ready=False):
+    def __init__(self, sched, W, deaths, poison=None, failing=(), allow_death_at_enqueue=True, double_ready=False, glitches=0):
         self.sched = sched
         self.workers = [FakePW(self, i, failing=(i in failing)) for i in range(W)]
         self.deaths_left = deaths
@@ -137,6 +159,7 @@ class Env:
         self.allow_death_at_enqueue = allow_death_at_enqueue
         self.double_ready = double_ready
         self.allow_truncated = True
+        self.glitches_left = glitches
         self.lost = []          # inputs handed to a worker that died before answering them
         self.refused = []       # inputs that were being handed to a dead worker
         self.events = []
@@ -171,6 +194,9 @@ class Env:
             w = self.by_conn(c)
             if w is None or c.closed or not w.alive:
                 continue
+            if w.lingering is not None:
+                opts.append(("lingering-dies", w))
+                continue
             if w.inbox:
                 opts.append(("work", w))
             if self.deaths_left > 0:
@@ -182,6 +208,9 @@ class Env:
             w.process_one()
         elif kind == "die":
             w.die(marker=False)
+        elif kind == "lingering-dies":
+            w.lingering = None
+            w._dead(marker=False)
         ready = [w.conn]
         if self.double_ready:
             others = [c for c in conns if c is not w.conn and not c.closed and (c.q or (not self.by_conn(c).alive and not c.eof_seen))]
